@@ -540,6 +540,12 @@ def rule_g(ctx: Context, R: Reporter, vf: FuncInfo):
         return a
 
     _spectral_floors(ctx, R, vf)
+    from ..util import errstate_underflow_sites
+
+    for c in errstate_underflow_sites(vf.node):
+        R.check("C20.g", "floating-point underflow is not turned into an exception in the volume metric", False, vf, c,
+                msg=f"{vf.short}: `{unparse(c)[:50]}` raises on underflow: products of tiny weights and small displacements underflow harmlessly, so the metric depends on the "
+                    f"absolute scale of the samples (an affine map with a small overall scale flips it to the failure value)", key="errstate-underflow")
     extra = {"numpy.linalg.matrix_rank": rank, "numpy.linalg.inv": inv_, "numpy.linalg.pinv": inv_, "numpy.clip": clip,
              "numpy.trace": lambda di, e, a: a[0] if a else INV, "numpy.eye": lambda di, e, a: INV}
     di = DegreeInterp(lambda c: ctx.res.external_name(vf, c), weight_params=(vf.params[0],), extra_degrees=extra)
